@@ -10,7 +10,9 @@ PAYLOADS = [
     ("diverge", "(ㄴ ㄱㅇ ㅎㄱ ㄷㅎㄷ ㅎ ㅎㄱ)"),               # f() = 1 + f(): runs into the evaluator's limit
     ("unknown", "(ㅈㅈㅈㅈㅈ ㅎㄱ)"),                          # unknown built-in name
     ("baddiv", "(ㄴ ㄱ ㄴㄴㅎㄷ)"),                            # division by zero
-    ("badidx", "(ㄹ ㅇㄱ)"),                                  # argument index out of range (inside a function: also out of range)
+    ("badidx", "(ㄹ ㅇㄱ)"),
+    ("badfunref", "(ㅈㅈㅈ ㅇ)"),                             # function reference 511 levels out: out of range
+    ("badfunref-neg", "(ㅈㅈㅈㄱ ㅇ)"),                       # … counted from the outermost                                  # argument index out of range (inside a function: also out of range)
 ]
 HARMLESS = "ㄱ"
 
@@ -69,8 +71,8 @@ SPEC = {
     'rule': '21 templates with a marked non-strict position (unused argument, unselected Boolean branch, operands after the '
             'deciding one of Boolean ㄱ / ㄷ, uninspected list elements / dictionary values, map over unused elements, ㄴ after '
             'the first difference, handler of a ㅅㄷ that does not raise, captured but unused argument) × random surrounding '
-            'sub-expressions × 6 payloads (user exception, type error, non-terminating recursion bounded only by the '
-            'evaluator limit, unknown name, division by zero, bad argument index): every payload variant must give the '
+            'sub-expressions × 8 payloads (user exception, type error, non-terminating recursion bounded only by the '
+            'evaluator limit, unknown name, division by zero, bad argument index, dangling function references): every payload variant must give the '
             'same result, stdout and remaining stdin as the harmless literal, and the model must agree. Non-trivial: all',
     'trusted': [],
     'assumptions': ['an unneeded I/O action is never *executed* because evaluation performs no I/O at all (C07); it is therefore not a separate payload'],
